@@ -243,3 +243,123 @@ Proof.
     apply Rmult_integral_contrapositive_currified. lra. apply pow_nonzero; auto. }
   rewrite HY. destruct (Nat.even n); field; auto.
 Qed.
+
+(* ------------------------------------------------------------------ CDD *)
+Lemma alt_map_half z s ts : alt z s (map (fun t => t / 2) ts) = alt (z / 2) s ts.
+Proof.
+  revert s. induction ts as [|t r IH]; intros s; simpl. reflexivity.
+  rewrite IH. unfold ez. replace (z * (t / 2)) with (z / 2 * t) by field. reflexivity.
+Qed.
+Lemma alt_map_shift z s ts : alt z s (map (fun t => 1/2 + t) ts) = cmul' (cexp' (z / 2)) (alt z s ts).
+Proof.
+  revert s. induction ts as [|t r IH]; intros s; simpl. ring.
+  rewrite IH. unfold ez. replace (z * (1 / 2 + t)) with (z / 2 + z * t) by field.
+  rewrite cexp_add. apply c_eq; csimp; ring.
+Qed.
+
+Lemma cdd_length_parity g : (-1) ^ length (cdd_times g) = (-1) ^ g.
+Proof.
+  induction g. reflexivity.
+  change (cdd_times (S g)) with
+    (let h := map (fun t => t / 2) (cdd_times g) in let h2 := map (fun t => 1/2 + t) h in
+     if Nat.even (S g) then h ++ h2 else h ++ [1/2] ++ h2).
+  cbv zeta. destruct (Nat.even (S g)) eqn:E.
+  - rewrite app_length, !map_length, (pow_m1_even (S g) E).
+    replace (length (cdd_times g) + length (cdd_times g))%nat with (2 * length (cdd_times g))%nat by lia.
+    apply pow_1_even.
+  - rewrite !app_length, !map_length, (pow_m1_odd (S g) E). simpl length.
+    replace (length (cdd_times g) + (1 + length (cdd_times g)))%nat with (S (2 * length (cdd_times g)))%nat by lia.
+    apply pow_1_odd.
+Qed.
+
+(* y_{g+1}(z) = (1 - e^{iz/2}) y_g(z/2): the two half-length copies, the second with flipped sign *)
+Lemma cdd_y_step g z :
+  dd_y (cdd_times (S g)) z = cmul' (csub' 1c (cexp' (z / 2))) (dd_y (cdd_times g) (z / 2)).
+Proof.
+  rewrite !dd_y_pulse. rewrite !cdd_length_parity.
+  change (cdd_times (S g)) with
+    (let h := map (fun t => t / 2) (cdd_times g) in let h2 := map (fun t => 1/2 + t) h in
+     if Nat.even (S g) then h ++ h2 else h ++ [1/2] ++ h2).
+  cbv zeta. unfold ez. rewrite !Rmult_1_r.
+  assert (Hp : cexp' z = cmul' (cexp' (z / 2)) (cexp' (z / 2))) by (rewrite <- cexp_add; f_equal; field).
+  rewrite Hp. set (p := cexp' (z / 2)).
+  destruct (Nat.even (S g)) eqn:E.
+  - rewrite alt_app, map_length, cdd_length_parity. rewrite (alt_scal z (1 * (-1) ^ g)).
+    rewrite alt_map_shift, alt_map_half. fold p. set (A := alt (z / 2) 1 (cdd_times g)).
+    rewrite (pow_m1_even _ E).
+    rewrite Nat.even_succ, <- Nat.negb_even in E. apply Bool.negb_true_iff in E. rewrite (pow_m1_odd _ E).
+    apply c_eq; csimp; ring.
+  - rewrite alt_app, map_length, cdd_length_parity. simpl app. simpl alt.
+    rewrite (alt_scal z (- (1 * (-1) ^ g))).
+    rewrite alt_map_shift, alt_map_half. unfold ez. replace (z * (1 / 2)) with (z / 2) by field.
+    fold p. set (A := alt (z / 2) 1 (cdd_times g)).
+    rewrite (pow_m1_odd _ E).
+    rewrite Nat.even_succ, <- Nat.negb_even in E. apply Bool.negb_false_iff in E. rewrite (pow_m1_even _ E).
+    apply c_eq; csimp; ring.
+Qed.
+
+(* products with the recursion structure of [seq] *)
+Fixpoint cprod_from (a n : nat) (f : nat -> Cx) : Cx :=
+  match n with O => 1c | S n' => cmul' (f a) (cprod_from (S a) n' f) end.
+Fixpoint rprod_from (a n : nat) (f : nat -> R) : R :=
+  match n with O => 1 | S n' => f a * rprod_from (S a) n' f end.
+Fixpoint rsum_from (a n : nat) (f : nat -> R) : R :=
+  match n with O => 0 | S n' => f a + rsum_from (S a) n' f end.
+
+Lemma cprod_from_shift a n f : cprod_from (S a) n f = cprod_from a n (fun k => f (S k)).
+Proof. revert a. induction n; intros a; simpl. reflexivity. rewrite IHn. reflexivity. Qed.
+Lemma cprod_from_ext a n f g : (forall k, f k = g k) -> cprod_from a n f = cprod_from a n g.
+Proof. intros H. revert a. induction n; intros a; simpl. reflexivity. rewrite IHn, H. reflexivity. Qed.
+Lemma cabs2_cprod a n f : cabs2 RO (cprod_from a n f) = rprod_from a n (fun k => cabs2 RO (f k)).
+Proof. revert a. induction n; intros a; cbn [cprod_from rprod_from]. csimp; ring. rewrite cabs2_mul, IHn. reflexivity. Qed.
+Lemma rprod_from_ext a n f g : (forall k, f k = g k) -> rprod_from a n f = rprod_from a n g.
+Proof. intros H. revert a. induction n; intros a; simpl. reflexivity. rewrite IHn, H. reflexivity. Qed.
+Lemma rprod_from_scal a n c f : rprod_from a n (fun k => c * f k) = c ^ n * rprod_from a n f.
+Proof. revert a. induction n; intros a; simpl. ring. rewrite IHn. ring. Qed.
+
+Lemma prod_range_from lo hi f :
+  prod_range lo hi f = rprod_from 0 (Z.to_nat (hi - lo)) (fun i => f (lo + Z.of_nat i)%Z).
+Proof.
+  unfold prod_range, zrange. generalize (Z.to_nat (hi - lo)) as n. generalize O as a.
+  intros a n. revert a. induction n; intros a; simpl. reflexivity. rewrite IHn. reflexivity.
+Qed.
+Lemma sum_range_from lo hi f :
+  sum_range lo hi f = rsum_from 0 (Z.to_nat (hi - lo)) (fun i => f (lo + Z.of_nat i)%Z).
+Proof.
+  unfold sum_range, zrange. generalize (Z.to_nat (hi - lo)) as n. generalize O as a.
+  intros a n. revert a. induction n; intros a; simpl. reflexivity. rewrite IHn. reflexivity.
+Qed.
+
+(* y_g(z) = -(1 - e^{i z/2^g}) prod_{k=1}^{g} (1 - e^{i z/2^k}) *)
+Lemma cdd_y g z :
+  dd_y (cdd_times g) z =
+  cmul' (cneg' (csub' 1c (cexp' (z / 2 ^ g)))) (cprod_from 0 g (fun k => csub' 1c (cexp' (z / 2 ^ S k)))).
+Proof.
+  revert z. induction g; intros z.
+  - unfold dd_y. simpl. unfold ez. rewrite Rmult_0_r, Rmult_1_r, cexp_0. replace (z / 1) with z by field.
+    apply c_eq; csimp; ring.
+  - rewrite cdd_y_step, IHg. cbn [cprod_from]. rewrite cprod_from_shift.
+    assert (H2 : forall k, z / 2 / 2 ^ k = z / 2 ^ S k).
+    { intros k. simpl. field. apply pow_nonzero. lra. }
+    rewrite (H2 g).
+    rewrite (cprod_from_ext 0 g (fun k => csub' 1c (cexp' (z / 2 / 2 ^ S k))) (fun k => csub' 1c (cexp' (z / 2 ^ S (S k))))).
+    2:{ intros k. rewrite (H2 (S k)). reflexivity. }
+    replace (z / 2 ^ 1) with (z / 2) by (simpl; field). ring.
+Qed.
+
+Lemma cdd_closed g z : dd_F (cdd_times g) z = CDD z (Z.of_nat g).
+Proof.
+  unfold dd_F. rewrite cdd_y, cabs2_mul, cabs2_neg, cabs2_1m, cabs2_cprod.
+  rewrite (rprod_from_ext 0 g _ (fun k => 4 * (sin (z / 2 ^ S (S k))) ^ 2)).
+  2:{ intros k. rewrite cabs2_1m. f_equal. f_equal. f_equal. simpl. field. apply pow_nonzero; lra. }
+  rewrite rprod_from_scal.
+  unfold CDD. rewrite prod_range_from.
+  replace (Z.to_nat (Z.of_nat g + 1 - 1)) with g by lia.
+  rewrite (rprod_from_ext 0 g (fun i => sin (z / powerRZ 2 (1 + Z.of_nat i + 1)) ^ 2) (fun k => sin (z / 2 ^ S (S k)) ^ 2)).
+  2:{ intros k. replace (1 + Z.of_nat k + 1)%Z with (Z.of_nat (S (S k))) by lia. rewrite <- pow_powerRZ. reflexivity. }
+  replace (Z.of_nat g + 1)%Z with (Z.of_nat (S g)) by lia. rewrite <- pow_powerRZ.
+  replace (2 * Z.of_nat g + 1)%Z with (Z.of_nat (S (2 * g))) by lia. rewrite <- pow_powerRZ.
+  replace (z / 2 ^ g / 2) with (z / 2 ^ S g) by (simpl; field; apply pow_nonzero; lra).
+  replace (2 ^ S (2 * g)) with (2 * 4 ^ g). field.
+  rewrite <- tech_pow_Rmult, pow_mult. f_equal. f_equal. simpl. ring.
+Qed.
